@@ -325,6 +325,8 @@ class Unit:
         self.cur_fn = None
         self.lenient = False     # lenient: sidecar blocks whose body anchor is lost are dropped instead of aborting
         self.dropped = []           # sidecar blocks (proof hints / loop invariants) whose anchor is lost
+        self.stub = set()           # function ids emitted as external_body stubs (contract assumed, body not verified)
+        self.stubbed = []
         self.dropped_rewrites = []  # rewrite rules whose pattern no longer occurs
         self.unannotated = []       # functions whose body has more loops than the sidecar annotates
 
@@ -536,6 +538,26 @@ class Unit:
         if "vis" in args:
             sig = re.sub(r"^(pub(\s*\([^)]*\))?\s+)?", args["vis"] + " ", sig, count=1)
 
+        if fid in self.stub:
+            # the verifier cannot process this body (unsupported construct / type error after a change): keep the
+            # contract as an ASSUMED specification so that the other functions can still be checked against it
+            self.emit("// @src %s:%d-%d fn %s  STUBBED (body not verified in this run)" % (args["file"], fn["line_start"], fn["line_end"], fid), None)
+            self.emit("#[verifier::external_body]", "sidecar:%s:%d" % (rel, startline))
+            if "attr" in args and "rlimit" not in args["attr"]:
+                self.emit(unesc(args["attr"]), "sidecar:%s:%d" % (rel, startline))
+            fn["gen_start"] = len(self.lines) + 1
+            for l in sig.split("\n"):
+                self.lines.append((l, "%s:%d" % (args["file"], fn["line_start"])))
+            for anchor, ls in sections:
+                if anchor == "contract":
+                    for (ln, t) in ls:
+                        self.lines.append((LABEL_RE.sub("", t), "sidecar:%s:%d" % (rel, ln)))
+            self.lines.append(("{ unimplemented!() }", "sidecar:%s:%d" % (rel, startline)))
+            fn["gen_end"] = len(self.lines)
+            fn["stubbed"] = True
+            self.stubbed.append(fid)
+            self.functions.append(fn)
+            return
         # ---- body insertions
         bm = mask(body)
         inserts = []    # (offset, order, [(lineno,text)], anchor)
@@ -796,6 +818,7 @@ class Unit:
             "line_src": [s for (t, s) in self.lines],
             "dropped_hints": self.dropped,
             "dropped_rewrites": self.dropped_rewrites,
+            "stubbed": self.stubbed,
             "unannotated_loops": self.unannotated,
         }
 
